@@ -352,6 +352,10 @@ Fixpoint coll_run (col : colouring) (P : nat) (sched : list commid) (st : nat ->
 Definition all_done (P : nat) (st : nat -> list event) : bool :=
   forallb (fun r => match st r with [] => true | _ => false end) (seq 0 P).
 
+(** no communicator can proceed *)
+Definition no_step_b (col : colouring) (P : nat) (st : nat -> list event) : bool :=
+  forallb (fun cm => match coll_step col P cm st with Some _ => false | None => true end) (comms_of col P).
+
 (** greedy scheduler with fuel, for the driver and the refutations: repeatedly fire the first enabled communicator;
     returns (true, schedule, _) if every rank finished, (false, schedule, stuck state) if ranks are left but no
     communicator is enabled (deadlock) or the fuel ran out (fuel = total number of events suffices) *)
